@@ -504,10 +504,18 @@ func (ex *Exec) havocEffects(e *Effects) {
 		ex.global(ex.st, g)
 		ex.st.globals[g] = ex.U.Fresh("G_"+g.Name(), ex.U.SortOf(g.Type()))
 	}
+	oldClock := ex.st.ghost["evClock"]
 	for _, gv := range ghostVars {
 		if gv.Cat != "alloc" && e.Ghost[gv.Cat] {
 			ex.st.ghost[gv.Name] = ex.U.Fresh(gv.Name, gv.Sort)
 		}
+	}
+	if e.Ghost["clock"] {
+		ex.facts = append(ex.facts, fmt.Sprintf("(>= %s %s)", ex.st.ghost["evClock"].S, oldClock.S))
+	}
+	if e.Ghost["clock"] || e.Ghost["chan"] {
+		// global invariant of the event-time ghost state (maintained by every send, see ghost.go)
+		ex.facts = append(ex.facts, fmt.Sprintf("(<= %s %s)", ex.st.ghost["evLastTime"].S, ex.st.ghost["evClock"].S), fmt.Sprintf("(>= %s 0)", ex.st.ghost["evLastTime"].S))
 	}
 	// allocation may have happened
 	a := ex.st.ghost["alloc"]
